@@ -191,6 +191,47 @@ def run(ctx, rep):
             sides[r] = "BACK" if back else ("LAY" if lay else "?")
     rep.check(sides == {"mb": "BACK", "ml": "LAY", "ub": "BACK", "ul": "LAY"}, "R8",
               key(ge, None, "back amounts go to the back lists and lay amounts to the lay lists"), ge, None, str(sides))
+    # counted in full: the amounts are the order's own matched / remaining sizes, untouched
+    prov = {}
+    for n, c in node_calls(cfg, "append"):
+        r = recv_text(c)
+        if r in ("mb", "ml", "ub", "ul") and isinstance(c.args[0], ast.Tuple) and len(c.args[0].elts) == 2:
+            prov.setdefault(r, []).append((utext(c.args[0].elts[0]), utext(c.args[0].elts[1])))
+    defs = {}
+    for s2 in walk_nodes(ge.node.body, (ast.Assign, ast.AugAssign)):
+        for t in (s2.targets if isinstance(s2, ast.Assign) else [s2.target]):
+            defs.setdefault(utext(t), []).append(utext(s2.value) if isinstance(s2, ast.Assign) else "aug:" + utext(s2))
+    ok_prov = True
+    for r, vals in prov.items():
+        for pv, sv in vals:
+            want_s = "order.size_matched" if r in ("mb", "ml") else "order.size_remaining"
+            ok_prov = ok_prov and defs.get(sv) == [want_s]
+            want_p = {"mb": ["2.0", "order.average_price_matched"], "ml": ["2.0", "order.average_price_matched"],
+                      "ub": ["2.0", "order.order_type.price"], "ul": ["2.0", "order.order_type.price"]}[r]
+            ok_prov = ok_prov and sorted(defs.get(pv, [])) == sorted(want_p)
+    rep.check(ok_prov and len(prov) == 4, "R8", key(ge, None, "each order is counted with its own full matched / remaining size and price"),
+              ge, None, "size and price definitions: %s" % {k: v for k, v in defs.items() if k.startswith("_size") or "price" in k})
+    status_atoms = sorted({utext(n.exprs[0]) for n in cfg.live_nodes() if n.kind == "cond"
+                           and any(w in utext(n.exprs[0]) for w in ("status", "update_data", "complete"))})
+    rep.check(status_atoms == ["order.complete", "order.status in PENDING_STATUS"], "R8",
+              key(ge, None, "the only state-dependent decisions are the pending/refused skip and live-vs-complete"), ge, None,
+              str(status_atoms))
+    # remaining size of an acknowledged live order whose exchange object carries no remaining size
+    # (place response): falls back to requested - matched, never to zero
+    sr = prog.own_method("BetfairOrder", "size_remaining")
+    tries = walk_nodes(sr.node.body, ast.Try)
+    good = len(tries) == 1 and len(sr.node.body) == 1
+    if good:
+        t = tries[0]
+        plain = [a for a in walk_nodes(t.body, ast.Attribute) if a.attr == "size_remaining" and utext(a.value) == "self.current_order"]
+        dyn = [c for c in walk_calls(t.body) if call_name(c) == "getattr"]
+        h = t.handlers
+        good = bool(plain) and not dyn and len(h) == 1 and utext(h[0].type) == "AttributeError"
+        if good:
+            rets = [utext(r.value) for r in walk_nodes(h[0].body, ast.Return) if r.value is not None]
+            good = "round(size - self.size_matched, 2)" in rets and "size" in rets and "self.order_type.liability" in rets
+    rep.check(good, "R8", key(sr, None, "a live order without an exchange remaining size counts requested - matched, not zero"), sr,
+              None, "between the placement response and the first order-stream update the resting part must stay in the exposure")
     # EXPIRED is never assigned anywhere
     for fn in prog.all_functions():
         for c in walk_calls(fn.node.body):
@@ -398,6 +439,14 @@ MUTANTS = [
     dict(id="c01-unmatched-when-complete", file="flumine/markets/blotter.py", func="Blotter.get_exposures",
          old="                if not order.complete:\n", new="                if True:\n", expect=["R8"],
          why="cancelled remainder still counted / stale"),
+    dict(id="c01-cancelling-credit", file="flumine/markets/blotter.py", func="Blotter.get_exposures",
+         old="                    _size_remaining = order.size_remaining  # cache\n",
+         new="                    _size_remaining = order.size_remaining  # cache\n                    if order.status == OrderStatus.CANCELLING:\n                        _size_remaining = 0.0\n",
+         expect=["R8"], why="a cancel in flight is credited before it succeeded"),
+    dict(id="c01-remaining-zero-after-ack", file="flumine/order/order.py", func="BetfairOrder.size_remaining",
+         old="        try:\n            return self.current_order.size_remaining or 0.0\n        except AttributeError:",
+         new="        if self.current_order is not None:\n            return getattr(self.current_order, \"size_remaining\", None) or 0.0\n        try:\n            raise AttributeError\n        except AttributeError:",
+         expect=["R8"], why="resting part invisible until the first stream update"),
     dict(id="c01-control-free-place-elsewhere", file="flumine/execution/simulatedexecution.py",
          func="SimulatedExecution.execute_place",
          old="        market = self.flumine.markets.markets[order_package.market_id]\n",
